@@ -51,7 +51,7 @@ def gen_cases(tier, seed):
                             "xattrs": {"user.old": "stale"}, "uid": r.choice([0, 777]), "gid": r.choice([0, 888])})
         sched = r.choice(["os", "os", "lifo", "pct", "role"])
         yield {"spec": spec, "pre": pre, "flags": flags, "driver": driver, "umask": r.choice([0o022, 0o077, 0, 0o027]), "overwritten": overwritten,
-               "args": ["--driver", driver, "-w", str(r.choice([1, 2, 4, 8])), "--block-size", "16KB"] + flags
+               "args": ["--driver", driver, "-w", str(r.choice([0, 1, 2, 4, 8])), "--block-size", "16KB"] + flags
                        + r.choice([[], [], ["--fsync"], ["--reflink", "never"], ["--backup", "numbered"], ["--no-progress"], ["-L"], ["--gitignore"]]) + ["-r", "src", "dst"],
                "sched": sched, "sseed": r.randrange(1 << 30), "fs": "tmpfs" if r.random() < 0.25 else "ext4"}
 
